@@ -424,8 +424,37 @@ func runC10c(run *mc.Run) int {
 			run.Violation(fmt.Sprintf("C10:daemon:%s:%s:%s", sc.Output, sc.Shape, strings.Join(strings.Fields(msg)[:3], "_")), sc, fmt.Sprintf("scenario %+v: %s", sc, msg))
 		}
 	}
-	cov := mc.Coverage{Level: "exploration", Evaluations: len(scs), Distinct: len(scs) - inconcl, Exhaustive: inconcl == 0, Samples: samples,
-		Rule:  "the built daemon under strace (-f -e trace=openat,write) with bursts on both FIFOs: sessions {2,16(,200)} x burst shape {alternating, simultaneous} x output {regular file, FIFO}, a regular file that already holds the events of an earlier run (restart), plus - without strace - a sustained stretch in which the sshd worker writes 250 x N failed-login events while the audit worker writes 250 x N actions of N already correlated sessions; oracle: never several descriptors without O_APPEND, every write(2) on it returns its full length and carries exactly one complete JSON line, every output line parses, none twice, each login's UserLogin precedes its UserActions, per session exactly 1+3 events. OS schedules are not enumerated (order-independent oracle). distinct_nontrivial = conclusive scenarios",
+	// choreographed meetings of the two workers at a one-page events FIFO whose consumer is the harness
+	gaps := []time.Duration{0, 5 * time.Millisecond, 50 * time.Millisecond}
+	type chorOut struct {
+		msg string
+		nl  int
+	}
+	outs := make([]chan chorOut, len(gaps))
+	for i, gap := range gaps { // (independent daemons: side by side)
+		outs[i] = make(chan chorOut, 1)
+		go func(c chan chorOut, gap time.Duration) {
+			m, n := choreographed(gap)
+			c <- chorOut{m, n}
+		}(outs[i], gap)
+	}
+	for i, gap := range gaps {
+		o := <-outs[i]
+		msg, nl := o.msg, o.nl
+		lines += nl
+		fmt.Printf("  choreographed gap=%v: lines=%d %s\n", gap, nl, msg)
+		samples = append(samples, map[string]any{"scenario": "choreographed", "gap_after_the_failed_login_ms": gap.Milliseconds(), "output_lines": nl})
+		if strings.HasPrefix(msg, "inconclusive") {
+			inconcl++
+			run.Note("choreographed gap=%v: %s", gap, msg)
+			continue
+		}
+		if msg != "" {
+			run.Violation("C10:daemon:choreographed:"+strings.Join(strings.Fields(msg)[:3], "_"), map[string]any{"scenario": "choreographed", "gap_ms": gap.Milliseconds()}, fmt.Sprintf("choreographed run (gap %v): %s", gap, msg))
+		}
+	}
+	cov := mc.Coverage{Level: "exploration", Evaluations: len(scs) + len(gaps), Distinct: len(scs) + len(gaps) - inconcl, Exhaustive: inconcl == 0, Samples: samples,
+		Rule:  "the built daemon under strace (-f -e trace=openat,write) with bursts on both FIFOs: sessions {2,16(,200)} x burst shape {alternating, simultaneous} x output {regular file, FIFO}, a regular file that already holds the events of an earlier run (restart), plus - without strace - a sustained stretch in which the sshd worker writes 250 x N failed-login events while the audit worker writes 250 x N actions of N already correlated sessions, and 3 choreographed runs on a two-page events FIFO whose consumer is the harness, with events so large that each takes a kernel buffer of its own (the audit worker blocked inside write(2); a failed-login event of the sshd worker meanwhile; exactly the blocked event let through; then the login line of a session whose records are held; then everything drained); oracle: never several descriptors without O_APPEND, every write(2) on it returns its full length and carries exactly one complete JSON line, every output line parses, none twice, each login's UserLogin precedes its UserActions, per session exactly 1+3 events. OS schedules are not enumerated (order-independent oracle). distinct_nontrivial = conclusive scenarios",
 		Extra: map[string]any{"output_lines_checked": lines}}
 	cov.Assumptions = []string{"Linux appends a single write(2) to an O_APPEND file atomically (and <= PIPE_BUF to a FIFO)", "strace's rendering of write(2)"}
 	return run.Finish(cov)
